@@ -204,9 +204,13 @@ def run_unit(pid, meta, tier, seed, replay=None, finish=True):
                     out.known_hits[sig] = out.known_hits.get(sig, 0) + 1
                 else:
                     out.notes.append("sub-property %s: a failing case did not reproduce on replay (%s); not reported" % (job["prop"], path))
-        if r["rc"] not in (0, 1):
-            # the harness process died: sanitizer report, assert, uncaught exception
-            sig = r["crash_sig"]
+        finished_with_violation = bool(entry and entry.get("violation"))
+        if r["rc"] not in (0, 1) or (r["rc"] == 1 and not finished_with_violation):
+            # the harness process died: sanitizer report, assert, uncaught exception -- or something called exit(1)
+            # mid-case (e.g. a Squid assert in a recipe whose stubs end the process with exit(EXIT_FAILURE))
+            sig = r["crash_sig"] or crash_signature(r["stderr"])
+            if sig == "crash:unclassified" and r["rc"] == 1:
+                sig = "exit:process-exited-with-status-1-mid-case"
             cc = r["out"] + ".crashcase"
             if sig in known:
                 out.known_hits[sig] = out.known_hits.get(sig, 0) + 1
